@@ -1152,7 +1152,7 @@ func init() {
 			}
 			// fastcgi.Handler.ServeHTTP up to the dial (the responder address refuses connections)
 			for _, rule := range []string{"fastcgi / 127.0.0.1:1", "fastcgi / 127.0.0.1:1 php", "fastcgi /app 127.0.0.1:1 {\n ext .php\n}"} {
-				for _, target := range []string{"http://example.test", "http://example.test?x=1", "/", "/a.php", "/%20", "/.", "/%20.%20.", "*", "/app", "/app/", "/app/x.php/", "//", "/a.php/%ff"} {
+				for _, target := range []string{"http://example.test", "http://example.test?x=1", "/", "/a.php", "/%20", "/.", "/%20.%20.", "*", "/app", "/app/", "/app/x.php/", "//", "/a.php/%ff", "/%C8%BA%C8%BA%C8%BA.php", "/%E2%84%AA/a.php", "/%C4%B0/A.PHP/x"} {
 					g.Case("fastcgi", hx.HS(rule), hx.HS(target))
 				}
 			}
